@@ -9,6 +9,7 @@ import (
 	"os/exec"
 	"sort"
 	"strings"
+	"time"
 
 	"github.com/ccbrown/api-fu/graphql"
 	"github.com/ccbrown/api-fu/graphql/parser"
@@ -80,35 +81,87 @@ type docCase struct {
 }
 
 const inProcessRuns = 3
+const maxRestarts = 3
 
-var childObs [][]string // per child: observation line per emitted case
+// What the fresh child processes saw, per emitted case. A validation that kills the process
+// (fatal "stack overflow", which recover cannot catch) or hangs shows as a missing line: the
+// child is the canary, the parent never runs a document in-process that a child has not survived.
+type childResult struct {
+	lines   []string // one observation per case, "crash" where the child died
+	covered int      // cases the child (with its restarts) got through, including crashes
+}
+
+var children []childResult
 var childMode = os.Getenv("C04_CHILD") != ""
+var childSkip = atoiEnv("C04_SKIP")
+var childOut *os.File
+var emitted int
+var halted bool
+
+func atoiEnv(k string) int {
+	n := 0
+	fmt.Sscan(os.Getenv(k), &n)
+	return n
+}
 
 func emit(h *hx.H, gen func(r *rng.R) docCase) {
+	if halted {
+		return
+	}
 	mine := h.Only < 0 || h.Index() == h.Only
 	slot := emitted // position of this case in the children's output
+	if mine {
+		emitted++
+	}
+	if childMode {
+		if !mine {
+			h.Case(func(*rng.R) sexp.Node { return sexp.L() })
+			return
+		}
+		h.Case(func(r *rng.R) sexp.Node {
+			if slot < childSkip {
+				return sexp.L()
+			}
+			c := gen(r)
+			line := observe(c.W, c.Src).line()
+			childOut.WriteString(line + "\n")
+			return sexp.L()
+		})
+		return
+	}
+	crashed := false
+	if mine {
+		for _, ch := range children {
+			if slot >= ch.covered {
+				// no child survived up to here (too many crashes before): stop rather than risk the parent
+				halted = true
+				fmt.Fprintf(os.Stderr, "harness: stopping at case %d: the child processes crashed %d times before it\n", h.Index(), maxRestarts+1)
+				return
+			}
+			if ch.lines[slot] == "crash" {
+				crashed = true
+			}
+		}
+	}
 	h.Case(func(r *rng.R) sexp.Node {
 		c := gen(r)
-		if childMode {
-			return observe(c.W, c.Src).sexp()
-		}
 		doc, perr := parser.ParseDocument([]byte(c.Src))
 		if len(perr) > 0 || doc == nil {
 			return sexp.T("case", sexp.T("syntax", sexp.Str(c.Src), sexp.Str(c.Tag)))
 		}
 		var runs []sexp.Node
-		for i := 0; i < inProcessRuns; i++ {
-			runs = append(runs, observe(c.W, c.Src).sexp())
-		}
-		for _, ch := range childObs {
-			if slot < len(ch) {
-				n, err := sexp.Parse(ch[slot])
+		if crashed {
+			runs = append(runs, sexp.T("crash"))
+		} else {
+			for i := 0; i < inProcessRuns; i++ {
+				runs = append(runs, observe(c.W, c.Src).sexp())
+			}
+			for _, ch := range children {
+				n, err := sexp.Parse(ch.lines[slot])
 				if err != nil {
 					panic("child observation: " + err.Error())
 				}
 				runs = append(runs, n)
-			} else {
-				panic("child produced too few observations")
 			}
 		}
 		var lines []sexp.Node
@@ -129,72 +182,88 @@ func emit(h *hx.H, gen func(r *rng.R) docCase) {
 			docS(doc),
 			sexp.T("runs", sexp.L(runs...)))
 	})
-	if mine {
-		emitted++
-	}
 }
 
-var emitted int
-
-// runChildren re-executes this binary twice in fresh processes over the same case stream (same seed,
-// same -tier / -only), collecting one observation line per case.
-func runChildren(h *hx.H) {
-	if childMode {
-		return
+func readLines(path string) []string {
+	f, err := os.Open(path)
+	if err != nil {
+		return nil
 	}
+	defer f.Close()
+	var lines []string
+	sc := bufio.NewScanner(f)
+	sc.Buffer(make([]byte, 1<<20), 1<<26)
+	for sc.Scan() {
+		lines = append(lines, sc.Text())
+	}
+	return lines
+}
+
+// runChildren re-executes this binary in fresh processes over the same case stream (same seed,
+// same -tier / -only). A child that dies is restarted after the case that killed it.
+func runChildren(h *hx.H) {
 	dir := os.Getenv("VERIF_RUNDIR")
 	if dir == "" {
 		dir = os.TempDir()
 	}
 	n := 2
-	type res struct {
-		lines []string
-		err   error
-	}
-	ch := make([]chan res, n)
+	ch := make([]chan childResult, n)
 	for k := 0; k < n; k++ {
-		ch[k] = make(chan res, 1)
+		ch[k] = make(chan childResult, 1)
 		go func(k int) {
-			out := fmt.Sprintf("%s/c04-child-%d-%d.sexp", dir, os.Getpid(), k)
-			defer os.Remove(out)
-			a := []string{"-tier", h.Tier, "-out", out}
-			if h.Only >= 0 {
-				a = append(a, "-only", fmt.Sprint(h.Only))
+			var res childResult
+			for attempt := 0; attempt <= maxRestarts; attempt++ {
+				out := fmt.Sprintf("%s/c04-child-%d-%d-%d.txt", dir, os.Getpid(), k, attempt)
+				a := []string{"-tier", h.Tier, "-out", os.DevNull}
+				if h.Only >= 0 {
+					a = append(a, "-only", fmt.Sprint(h.Only))
+				}
+				cmd := exec.Command(os.Args[0], a...)
+				cmd.Env = append(os.Environ(), fmt.Sprintf("C04_CHILD=%d", k+1), "C04_CHILD_OUT="+out, fmt.Sprintf("C04_SKIP=%d", len(res.lines)))
+				done := make(chan error, 1)
+				if err := cmd.Start(); err != nil {
+					fmt.Fprintln(os.Stderr, "child:", err)
+					os.Exit(3)
+				}
+				go func() { done <- cmd.Wait() }()
+				var err error
+				select {
+				case err = <-done:
+				case <-time.After(20 * time.Minute):
+					cmd.Process.Kill()
+					err = fmt.Errorf("timeout")
+				}
+				res.lines = append(res.lines, readLines(out)...)
+				os.Remove(out)
+				if err == nil {
+					res.covered = 1 << 60
+					break
+				}
+				// the case after the last line written killed (or hung) the child
+				res.lines = append(res.lines, "crash")
+				res.covered = len(res.lines)
 			}
-			cmd := exec.Command(os.Args[0], a...)
-			cmd.Env = append(os.Environ(), fmt.Sprintf("C04_CHILD=%d", k+1))
-			if b, err := cmd.CombinedOutput(); err != nil {
-				ch[k] <- res{err: fmt.Errorf("child %d: %v: %s", k, err, b)}
-				return
-			}
-			f, err := os.Open(out)
-			if err != nil {
-				ch[k] <- res{err: err}
-				return
-			}
-			defer f.Close()
-			var lines []string
-			sc := bufio.NewScanner(f)
-			sc.Buffer(make([]byte, 1<<20), 1<<26)
-			for sc.Scan() {
-				lines = append(lines, sc.Text())
-			}
-			ch[k] <- res{lines: lines}
+			ch[k] <- res
 		}(k)
 	}
 	for k := 0; k < n; k++ {
-		r := <-ch[k]
-		if r.err != nil {
-			fmt.Fprintln(os.Stderr, r.err)
-			os.Exit(3)
-		}
-		childObs = append(childObs, r.lines)
+		children = append(children, <-ch[k])
 	}
 }
 
 func main() {
+	if childMode {
+		f, err := os.Create(os.Getenv("C04_CHILD_OUT"))
+		if err != nil {
+			fmt.Fprintln(os.Stderr, err)
+			os.Exit(3)
+		}
+		childOut = f
+	}
 	hx.Main(func(h *hx.H) {
-		runChildren(h)
+		if !childMode {
+			runChildren(h)
+		}
 		generate(h)
 	})
 }
